@@ -353,6 +353,10 @@ class Network(SimComponent):
         if node_a is node_b:
             _LOGGER.warning(f"Cannot link endpoint {endpoint_a} to {endpoint_b} because they belong to the same node.")
             return
+        for endpoint in (endpoint_a, endpoint_b):
+            if endpoint._connected_link is not None:
+                _LOGGER.warning(f"Cannot link endpoint {endpoint_a} to {endpoint_b} because {endpoint} already has a link.")
+                return
         link = Link(endpoint_a=endpoint_a, endpoint_b=endpoint_b, bandwidth=bandwidth, **kwargs)
         self.links[link.uuid] = link
         self._link_id_map[len(self.links)] = link
